@@ -14,16 +14,20 @@ EXTENDS Radix, Json, CSV, IOUtils
 CONSTANTS MaxLen,      \* longest insertion sequence explored
           DumpCases,   \* TRUE: write one JSON line per reachable state to IOEnv.OUT_FILE
           Uni          \* "full": 72 patterns; "small": a 40-pattern sub-universe (hosts b, ab, a.b, b.b, a.a.b; ports none / *),
-                       \* explored one insertion deeper for the same budget
+                       \* explored one insertion deeper for the same budget; "ports": 48 patterns over 2 hosts x 3 schemes x
+                       \* ports none / 1 / 2 / * (nodes with several schemes and several explicit ports)
 
 a == 97
 b == 98
 
-PatHosts == IF Uni = "small"
-              THEN << <<b>>, <<a,b>>, <<a,DOT,b>>, <<b,DOT,b>>, <<a,DOT,a,DOT,b>> >>
-              ELSE << <<b>>, <<a,b>>, <<a,DOT,b>>, <<b,DOT,b>>, <<a,b,DOT,b>>, <<a,DOT,a,DOT,b>> >>
-Schemes  == << "s", "t" >>
-PatPorts == IF Uni = "small" THEN << NoPort, AnyPort >> ELSE << NoPort, 1, AnyPort >>
+\* "ports": few hosts, but three schemes and two explicit ports, so that a node carries several schemes and several ports
+PatHosts == CASE Uni = "small" -> << <<b>>, <<a,b>>, <<a,DOT,b>>, <<b,DOT,b>>, <<a,DOT,a,DOT,b>> >>
+              [] Uni = "ports" -> << <<b>>, <<a,DOT,b>> >>
+              [] OTHER -> << <<b>>, <<a,b>>, <<a,DOT,b>>, <<b,DOT,b>>, <<a,b,DOT,b>>, <<a,DOT,a,DOT,b>> >>
+Schemes  == IF Uni = "ports" THEN << "s", "t", "u" >> ELSE << "s", "t" >>
+PatPorts == CASE Uni = "small" -> << NoPort, AnyPort >>
+              [] Uni = "ports" -> << NoPort, 1, 2, AnyPort >>
+              [] OTHER -> << NoPort, 1, AnyPort >>
 NPat     == Len(PatHosts) * Len(Schemes) * Len(PatPorts) * 2
 
 PatAt(i) ==
@@ -37,7 +41,7 @@ PatAt(i) ==
 ProbeHosts == << <<b>>, <<a,b>>, <<a,DOT,b>>, <<b,DOT,b>>, <<a,b,DOT,b>>, <<a,DOT,a,DOT,b>>,
                  <<a>>, <<b,b>>, <<a,a,b>>, <<a,DOT,a,b>>, <<b,DOT,a,DOT,b>>, <<a,DOT,b,DOT,b>>,
                  <<a,DOT,a,b,DOT,b>>, <<b,DOT,a,DOT,a,DOT,b>> >>
-ProbePorts == << NoPort, 1, 2 >>
+ProbePorts == IF Uni = "ports" THEN << NoPort, 1, 2, 3 >> ELSE << NoPort, 1, 2 >>
 NProbe     == Len(ProbeHosts) * Len(Schemes) * Len(ProbePorts)
 
 ProbeAt(i) ==
